@@ -137,6 +137,7 @@ type fgen struct {
 	stackLocals   []stackLocal    // non-escaping locals (callees cannot write them)
 	guardInfos    []*guardInfo
 	freshRefs     map[string]bool // refs allocated by this function
+	ginvExempt    []string        // refs of objects under construction at the current call
 	fullHavocs    []*fullHavoc // unbounded-frame calls seen so far
 	factSeen      map[string]bool
 	constSort     map[string]string // declared constants and their sorts
